@@ -3,6 +3,7 @@ package main
 // SMT-LIB term construction and Go-type -> SMT-sort mapping.
 
 import (
+	"regexp"
 	"fmt"
 	"go/constant"
 	"go/types"
@@ -243,8 +244,14 @@ func shortTypeName(t types.Type) string {
 		}
 		return p.Path()
 	})
+	// byte and rune are aliases: one heap family per underlying type
+	s = aliasByteRe.ReplaceAllString(s, "uint8")
+	s = aliasRuneRe.ReplaceAllString(s, "int32")
 	return sanitize(s)
 }
+
+var aliasByteRe = regexp.MustCompile(`\bbyte\b`)
+var aliasRuneRe = regexp.MustCompile(`\brune\b`)
 
 // structKey names the field-array family of a struct type: named types by
 // their name, anonymous by structure.
